@@ -56,7 +56,7 @@ REQUIRED_THEOREMS = ['OpusProps.C10MsDec.stream_is_standalone', 'OpusProps.C10Ms
                      'OpusProps.C10MsDec.accepted_packet_subpackets', 'OpusProps.C10MsDec.rejected_packet_touches_nothing',
                      'OpusProps.C10MsDec.failing_stream_midway', 'OpusProps.C10MsDec.routed_channel_of_stream',
                      'OpusProps.C10MsDec.ctl_fanout', 'OpusProps.C10MsDec.skeleton_is_a_machine',
-                     'OpusProps.C10MsDec.stream_inputs_closed_form',
+                     'OpusProps.C10MsDec.stream_inputs_closed_form', 'OpusProps.C10MsDec.history_is_splitter_run',
                      'OpusProps.C10MsDec.toy_po', 'OpusProps.C10MsDec.toy_local', 'OpusProps.C10MsDec.valid_f8']
 UNPROVED = ['Local and PoContract for the compiled SILK/CELT decoders (proved for the C01 skeleton of opus_decode_native with the DSP '
             'calls as oracles; on the binary they rest on the tie and the S4 twin search)']
@@ -106,6 +106,12 @@ def classify(ctx, tie, mm):
                        '(a read past the caller\'s packet or a write past the caller\'s pcm is a locality violation)'}
     if model.split(' ')[0] in ('bad-op', 'INEXACT'):
         return None          # the model makes no statement about this input: a broken tie, not a property violation
+    if model.startswith('PO-CONTRACT-VIOLATED'):
+        return {'suite': tie.name, 'input': inp, 'expected': 'packet_offset of every successful per-stream call = the parser\'s '
+                'packet_offset of the bytes the stream was handed', 'observed': impl,
+                'why': 'a per-stream opus_decode_native call returned > 0 on a present packet but stored a *packet_offset that is not '
+                       'the C06 parser\'s (hypothesis PoContract of accepted_packet_splits): the following streams are handed bytes '
+                       'that are not their own sub-packets'}
     return {'suite': tie.name, 'input': inp, 'expected': model, 'observed': impl, 'why': _WHY}
 
 
@@ -184,7 +190,8 @@ LEVEL_TEXT = ('proof, for EVERY elementary decoder (an abstract deterministic st
               'is called once at the offset = total length of the sub-packets before it, with the remaining length, '
               'self_delimited = (s != n-1), the caller\'s decode_fec and soft_clip, frame_size = previous return value (clamped '
               'caller value for s = 0) - and, for machines that read only their own sub-packet, equals the run on the sub-packets '
-              'serialize(s != n-1, p_s) alone; a stream returning <= 0 is the last one called, its value is returned, earlier streams '
+              'serialize(s != n-1, p_s) alone (closed form per call; and whole histories of accepted packets interleaved with arbitrary '
+              'other calls equal the declarative run specRun); a stream returning <= 0 is the last one called, its value is returned, earlier streams '
               'and the failing one keep their advanced state, later ones are untouched; a positive return means all n streams returned '
               '> 0 and every output channel gets exactly one copy from the stream side C10.expectedSrc names (composition with '
               'C10.routing); ctl: the five int32 GETs reach stream 0 only, FINAL_RANGE / RESET_STATE / SET_GAIN / '
